@@ -160,3 +160,59 @@ def install_keras2_graph_shims():
     L.get_output_at = lambda self, i: self.output
   if not hasattr(L, "get_input_at"):
     L.get_input_at = lambda self, i: self.input
+
+
+def install_keras2_batchnorm_standin():
+  """The folded layers (QConv2DBatchnorm, QDepthwiseConv2DBatchnorm) construct a Keras-2 BatchNormalization
+  (`fused=`, `virtual_batch_size=` ...) and read its private `_get_training_value`, `_moments`, `_param_dtype` and list-valued
+  `axis`; Keras 3 rejects the constructor arguments, so the classes do not build in the pinned environment (known
+  finding).  This installs, in the `layers` namespace of the two qkeras modules only, a stand-in that does the batch-norm
+  BOOKKEEPING of the Keras-2 class (four weights, epsilon, inference call); every line of folding arithmetic, get_folded_weights,
+  unfold_model and convert_folded_layer_to_unfolded that then runs is /repo's.  Also gives Keras variables the Keras-2
+  accessor get_shape() that QDepthwiseConv2DBatchnorm.call reads.  (Technique first seen in the demo of seed C15-d.)"""
+  import types
+  import keras
+  from keras.src.backend.common.variables import Variable as _KV
+  from qkeras import qconv2d_batchnorm as qcb, qdepthwiseconv2d_batchnorm as qdb
+  if not hasattr(_KV, "get_shape"):
+    _KV.get_shape = lambda self: tf.TensorShape(self.shape)
+
+  class BatchNormalizationK2(keras.layers.Layer):
+    def __init__(self, axis=-1, momentum=0.99, epsilon=1e-3, center=True, scale=True, trainable=True, **unused):
+      super().__init__(trainable=trainable)
+      self._axis_arg, self.momentum, self.epsilon, self.center, self.scale = axis, momentum, epsilon, center, scale
+      self.gamma = self.beta = self.moving_mean = self.moving_variance = None
+      self._param_dtype = tf.float32
+
+    def build(self, input_shape):
+      nd = len(input_shape)
+      ax = self._axis_arg if self._axis_arg >= 0 else nd + self._axis_arg
+      self.axis = [ax]
+      shape = (input_shape[ax],)
+      if self.scale:
+        self.gamma = self.add_weight(name="gamma", shape=shape, initializer="ones")
+      if self.center:
+        self.beta = self.add_weight(name="beta", shape=shape, initializer="zeros")
+      self.moving_mean = self.add_weight(name="moving_mean", shape=shape, initializer="zeros", trainable=False)
+      self.moving_variance = self.add_weight(name="moving_variance", shape=shape, initializer="ones", trainable=False)
+
+    def _get_training_value(self, training=None):
+      return bool(training) if training is not None else False
+
+    def _moments(self, x, axes, keep_dims):
+      return tf.nn.moments(x, axes, keepdims=keep_dims)
+
+    def call(self, x, training=None):
+      return tf.nn.batch_normalization(x, self.moving_mean, self.moving_variance, self.beta, self.gamma, self.epsilon)
+
+    def get_config(self):
+      return {"axis": self._axis_arg, "momentum": self.momentum, "epsilon": self.epsilon, "center": self.center, "scale": self.scale}
+
+  for mod in (qcb, qdb):
+    if getattr(mod.layers, "_verif_standin", False):
+      continue
+    ns = types.SimpleNamespace(**{k: getattr(mod.layers, k) for k in dir(mod.layers) if not k.startswith("__")})
+    ns.BatchNormalization = BatchNormalizationK2
+    ns._verif_standin = True
+    mod.layers = ns
+  return BatchNormalizationK2
